@@ -78,6 +78,12 @@ CLAIMED = {
         text="Lean theorems for any number of fields and values: the tuple impl puts component i into field i (from_ith), typed and forwarding impls apply exactly one From::from per field to the component of the same position, the impl count per attribute kind and the switching-off of un-annotated / unit variants, every Into impl extracts exactly the non-skipped fields in declaration order with one impl per listed type and reference kind, tuple->struct->tuple and struct->tuple->struct are the identity, new(..) puts argument i into field i. Impl sets and bodies of the model are compared token-for-token with the working tree on 3300 generated items; 17 type families (values, addresses of ref/ref_mut results, round trips, typed/forward conversions) and the impl sets of enums and of all splits/orders of repeated #[into] attributes are checked with the real macro",
         note="Lean kernel; model tied by differential run; parsing of Into's conversion lists enters the model already parsed (C17/C18); impl headers' generics belong to C01",
         ref="DESIGN.md §4 C08"),
+    "C11": dict(
+        level="proof",
+        technique="Lean 4 theorems about a value-level semantics of the accessors and about TryInto's grouping + correspondence of accessor sets / patterns / fall-through arms / groups + every (value, accessor) pair with the real macro",
+        text="Lean theorems for every enum and value: is_x iff the value is x and exactly one is_* is true, unwrap_x* returns the payload iff the value is x and otherwise panics, try_unwrap_x* returns the unchanged input in the error, TryFrom<Enum> for (tys) succeeds with the non-ignored fields in order exactly for variants whose non-ignored types equal tys and otherwise returns the input, grouping is a partition independent of variant order. The model of State's enabled/owned/ref/ref_mut bookkeeping and of the four derives is compared with the working-tree expansions on 2400 generated enums; 26 enums are run with the real macro: all accessors on all variant values (results, panics, error payloads, addresses of reference forms) and a reference-kind selection grid",
+        note="Lean kernel; model tied by differential run; snake_case is a parameter; TryInto impl order is C19's subject (compared as a set here)",
+        ref="DESIGN.md §4 C11"),
 }
 
 NOT_APPLICABLE = {}
